@@ -184,4 +184,79 @@ example : acceptLit false .ubyte (.dec false [50, 53, 54]) = none := by decide
 example : acceptLit false .int (.dec false [49,56,52,52,54,55,52,52,48,55,51,55,48,57,53,53,49,54,49,53]) = none := by decide
 example : enumValues .ulong none [some (.uint 18446744073709551615), none] = none := by decide
 
+
+/-! ## bit_flags enums -/
+
+/-- head of an accepted `bit_flags` member list: the chosen position `v` is below the bit width and the member's value is
+the coerced `2 ^ position` -/
+theorem enumFlagValues_head (st : STy) (prev : Option Val) (m : Option Val) (rest : List (Option Val)) (i : Int) (r : List Int)
+    (h : enumFlagValues st prev (m :: rest) = some (i :: r)) :
+    ∃ v, valU v < bitsOf st ∧ (coerce false st (.uint (2 ^ valU v))).bind valInt = some i ∧
+      enumFlagValues st (some v) rest = some r ∧
+      (m = none → prev = none → v = .int 0) ∧ (∀ u, m = some (.uint u) → v = .uint u) := by
+  unfold enumFlagValues at h
+  simp only [] at h
+  split at h
+  · contradiction
+  · rename_i v hidx
+    split at h
+    · contradiction
+    · rename_i hlt
+      split at h
+      · contradiction
+      · rename_i v' hco
+        cases hvi : valInt v' with
+        | none => simp [hvi] at h
+        | some iv =>
+          cases hr : enumFlagValues st (some v) rest with
+          | none => simp [hvi, hr] at h
+          | some rr =>
+            simp only [hvi, hr] at h
+            injection h with h; injection h with h1 h2
+            refine ⟨v, by omega, by simp [hco, Option.bind, hvi, h1], by rw [hr, h2], ?_, ?_⟩
+            · intro hm hp; subst hm; subst hp; simp at hidx; exact hidx.symm
+            · intro u hm; subst hm; simp at hidx; exact hidx.symm
+
+/-- **bit_flags.** In an accepted `bit_flags` enum every member's value is exactly `2 ^ p` for a position `p` below the bit
+width of the underlying type, and that value is representable in the type (so the sign bit of a signed type is refused);
+nothing wraps or aliases another flag. -/
+theorem C08_bitflags (st : STy) (hst : st ≠ .bool) : ∀ (ms : List (Option Val)) (prev : Option Val) (vs : List Int),
+    enumFlagValues st prev ms = some vs →
+    ∀ x ∈ vs, ∃ p, p < bitsOf st ∧ x = (2 ^ p : Nat) ∧ Representable st x := by
+  intro ms
+  induction ms with
+  | nil => intro prev vs h; unfold enumFlagValues at h; injection h with h; subst h; intro x hx; simp at hx
+  | cons m rest ih =>
+    intro prev vs h
+    cases vs with
+    | nil =>
+      exfalso
+      unfold enumFlagValues at h
+      simp only [] at h
+      repeat (first | contradiction | split at h)
+      all_goals simp at h
+    | cons i r =>
+      obtain ⟨v, hlt, hco, hrest, _, _⟩ := enumFlagValues_head st prev m rest i r h
+      intro x hx
+      rcases List.mem_cons.mp hx with rfl | hx
+      · have hb : bitsOf st ≤ 64 := by cases st <;> simp [bitsOf]
+        have hp : 2 ^ valU v < 18446744073709551616 := by
+          have : 2 ^ valU v < 2 ^ 64 := Nat.pow_lt_pow_right (by omega) (by omega)
+          simpa using this
+        rw [coerce_uint st hst _ hp] at hco
+        refine ⟨valU v, hlt, hco.2, ?_⟩
+        have := range_lo_nonpos st
+        constructor
+        · rw [hco.2]; have : (0 : Int) ≤ ((2 ^ valU v : Nat) : Int) := Int.natCast_nonneg _; omega
+        · rw [hco.2]; exact hco.1
+      · exact ih (some v) r hrest x hx
+
+/-- the position just past the width is refused for every underlying type, explicitly or by auto-numbering -/
+example : enumFlagValues .ulong none [some (.uint 0), some (.uint 64)] = none := by decide
+example : enumFlagValues .ulong none [some (.uint 63), none] = none := by decide
+example : enumFlagValues .ulong none [some (.uint 63)] = some [9223372036854775808] := by decide
+example : enumFlagValues .long none [some (.uint 63)] = none := by decide
+example : enumFlagValues .ubyte none [none, none, some (.uint 7)] = some [1, 2, 128] := by decide
+example : enumFlagValues .byte none [some (.uint 7)] = none := by decide
+
 end Flatcc.SchemaNum
